@@ -101,9 +101,45 @@ def enc_tlv(k, v):
     return bytes([k]) + be16(len(v)) + v
 
 
+def dict_ip6(rng):
+    """16 octets built from the source dictionary (gen/dictionary.py): as eight groups or as sixteen octets"""
+    from . import dictionary
+    if rng.chance(2, 3):
+        gs = dictionary.units(rng, 8, 65536)
+        return b"".join(bytes([g >> 8, g & 255]) for g in gs)
+    return bytes(dictionary.units(rng, 16, 256))
+
+
+def dict_ip4(rng):
+    from . import dictionary
+    return bytes(dictionary.units(rng, 4, 256))
+
+
+WELL_KNOWN_PREFIXES = [
+    b"\x00\x64\xff\x9b" + bytes(8),            # 64:ff9b::/96      NAT64 (RFC 6052)
+    b"\x00\x64\xff\x9b\x00\x01" + bytes(6),    # 64:ff9b:1::/48    local-use NAT64
+    b"\x20\x02",                               # 2002::/16         6to4
+    b"\x20\x01\x00\x00",                       # 2001::/32         Teredo
+    b"\x20\x01\x0d\xb8",                       # 2001:db8::/32     documentation
+    b"\xff\x02" + bytes(10),                    # ff02::/16         link-local multicast
+    b"\xff\x0e",                               # global multicast
+    b"\xfc\x00", b"\xfd",                      # fc00::/7          unique local
+    b"\xfe\xc0",                               # fec0::/10         site-local
+    bytes(8) + b"\xff\xff\x00\x00",            # ::ffff:0:0:0/96   SIIT
+    b"\x01\x00" + bytes(6),                    # 100::/64          discard
+    bytes(10) + b"\xff\xff",                    # ::ffff:0:0/96     IPv4-mapped
+    bytes(12),                                  # ::/96             IPv4-compatible
+]
+
+
 def special_ip6(rng):
     """address values with structure that random bytes never produce"""
     v4 = rng.bytes(4)
+    if rng.chance(1, 4):
+        p = rng.choice(WELL_KNOWN_PREFIXES)
+        return p + (rng.bytes(16 - len(p)) if rng.chance(3, 4) else bytes(15 - len(p)) + b"\x01")
+    if rng.chance(1, 4):
+        return dict_ip6(rng)
     return rng.choice([
         bytes(10) + b"\xff\xff" + v4,            # ::ffff:a.b.c.d (IPv4-mapped)
         bytes(12) + v4,                            # ::a.b.c.d (IPv4-compatible)
@@ -118,4 +154,10 @@ def special_ip6(rng):
 
 
 def special_ip4(rng):
+    if rng.chance(1, 4):
+        return dict_ip4(rng)
+    if rng.chance(1, 3):
+        return rng.choice([bytes([169, 254, rng.below(256), rng.below(256)]), bytes([100, 64 + rng.below(64), 0, 1]),
+                           bytes([224, 0, 0, rng.below(256)]), bytes([172, 16 + rng.below(16), 1, 1]), bytes([192, 0, 2, 1]),
+                           bytes([198, 18, 0, 1]), bytes([240, 0, 0, 1]), bytes([0, 0, 0, 1]), bytes([127, 255, 255, 254])])
     return rng.choice([bytes(4), bytes([255] * 4), bytes([127, 0, 0, 1]), bytes([10, 0, 0, rng.below(256)]), bytes([192, 168, 1, 1])])
